@@ -9,6 +9,7 @@ from xknx.knxip import KNXIPFrame
 
 from harness import knxip_lib as L
 
+from harness.lib.poison import poison
 PROPERTY = "C21"
 CASE_TIMEOUT = 2.0
 HANG_IS_VIOLATION = True
@@ -126,6 +127,12 @@ def roundtrip(b):
     p, err = L.guarded(lambda: KNXIPFrame.from_knx(raw))
     if err:
         return raw, f"{err} |wf={int(wf)} len={len(raw)} calc={calc}", wf
+    # history independence (harness/lib/poison.py): the first parse result is modified, the octets are parsed again
+    first = L.render(p[0].body)
+    poison(p[0])
+    p, err = L.guarded(lambda: KNXIPFrame.from_knx(raw))
+    if err or L.render(p[0].body) != first:
+        return raw, f"err other:SharedMutableState |wf={int(wf)} len={len(raw)} calc={calc}", wf
     parsed, rest = p
     reser, err2 = L.guarded(lambda: KNXIPFrame.init_from_body(parsed.body).to_knx())
     eq = L.struct_eq(parsed.body, b) and L.struct_eq(parsed.body, b0)
@@ -177,6 +184,9 @@ def oracle(case, out):
     # --- the property, for a well-formed body ---
     if head.startswith("err ser:"):
         return f"a well-formed body cannot be serialised: {head}"
+    if head.startswith("err other:SharedMutableState"):
+        return ("parsing the serialised octets again after the first result was modified gives a different body "
+                "(parsed frames share mutable state)")
     if head.startswith("err"):
         return f"the frame serialised from a well-formed body does not parse back: {head}"
     if not (int(kv["len"]) == int(kv["calc"]) + 6 == int(kv["hdr"]) == int(kv["field"])):
